@@ -142,6 +142,33 @@ else:
         return False
 
 
+class _Null:
+    def __enter__(self):
+        return self
+
+    def __exit__(self, *a):
+        return False
+
+
+def untraced():
+    """context manager: run the body natively (no symbolic tracing). Only for code whose inputs were realised first:
+    the solver still enumerates the (finite) input space through the realisation forks, the body runs at native speed."""
+    if HAVE_CH:
+        return NoTracing()
+    return _Null()
+
+
+def concretize(*vals):
+    """realise symbolic ints (each realisation is a fork the solver must close by enumerating every feasible value)"""
+    if HAVE_CH:
+        from crosshair.core import realize
+
+        out = [realize(v) for v in vals]
+    else:
+        out = [int(v) for v in vals]
+    return out if len(out) != 1 else out[0]
+
+
 def ALL(xs):
     return AND(*list(xs))
 
